@@ -1,93 +1,72 @@
 /-
   Property C04 — Output is deterministic and independent of session history.
-  Property theorems only; definitions and helper lemmas live in Tranp/Lemmas/Session.lean.
+  Property theorems only; definitions and helper lemmas live in Tranp/Lemmas/Session.lean and Tranp/Lemmas/SessionRef.lean.
+  Model of the repaired `Modules` (rollback of a failed load, cascading unload, re-check after the library load).
 -/
 import Tranp.Lemmas.SessionRef
 
 namespace Tranp.C04
 open Tranp Tranp.Session
 
+/-! ### cache coherence: every history, no hypothesis on the sources -/
+
 section
 variable {Src Tree NV V Text : Type} (L : Lang Src Tree NV V Text) (E : Env Src)
 
 /-- `Coherent`: every memo entry equals the pure node function on the tree of its entrypoint, every entrypoint / cached
     AST is the parse of the current source, the symbol table holds keys of registered modules only, symbol files hold
-    keys of their own module only, every entrypoint belongs to a registered module. It holds in a fresh process and is
-    preserved by every operation — also by the ones that raise half-way. -/
+    keys of their own module only, every entrypoint belongs to a registered module, and everything a registered module
+    depends on (its imports; the library modules) is registered. It holds in a fresh process and is preserved by every
+    operation — also by the ones that raise half-way and roll back. -/
 theorem inv (hN : Names L E) (f : Nat) :
     (∀ src, SrcOk L src → Coherent L E ({ mainSrc := src } : St L)) ∧
     (∀ s op, Op.wf L op → Coherent L E s → Coherent L E (step L E f s op).2) :=
   ⟨fun src hsrc => init_coherent L E src hsrc, fun s op hop hC => step_coherent L E hN f s op hop hC⟩
 
-/-- `load m` changes no observation of an already registered module: its entrypoint (tree and memo tables), its symbol
-    table entries, its completed flag, the stored symbol files and both transpiler stacks stay as they were —
-    whether the load succeeds or raises. -/
+/-- `load m` — successful or raising and rolled back — keeps every already registered module registered and changes no
+    observation of it: its entrypoint (tree and memo tables), its symbol table entries, its completed flag; the stored
+    symbol files and both transpiler stacks stay as they were. -/
 theorem frame (hN : Names L E) (f : Nat) (s : St L) (m : ModPath) (hm : GoodName m) (hC : Coherent L E s) :
-    Frame L s (step L E f s (.load m)).2 := by
+    FrameOn L (fun x => x ∈ s.mods) s (step L E f s (.load m)).2 ∧ Global L s (step L E f s (.load m)).2 := by
   simp only [step]
-  obtain ⟨_, hF, _⟩ := loadAll_inv L E hN f [m] s (by intro p hp; simp at hp; exact hp ▸ hm) hC.1 hC.2.2
-  generalize loadAll L E f [m] s = r at hF
+  obtain ⟨_, hG, _, _, hO, _⟩ := loadAll_inv L E hN f [m] s (by intro p hp; simp at hp; exact hp ▸ hm) hC.1 hC.2.2.1
+  have hcl : ClosedSet L E s (fun x => x ∈ s.mods) := ⟨fun _ h => h, fun x hx d hd => hC.2.2.2 x hx (by simp) d hd⟩
+  obtain ⟨_, hF⟩ := hO _ hcl
+  generalize loadAll L E f [m] s = r at hF hG
   obtain ⟨rr, s1⟩ := r
-  cases rr <;> exact hF
+  cases rr <;> exact ⟨hF, hG⟩
 
-end
+/-- `unload m`: `m` is gone, and every module that is left is untouched (registration, entrypoint, table, completed flag,
+    symbol files, stacks) -/
+theorem unload_clears (s : St L) (m : ModPath) : m ∉ (unload L E s m).mods ∧ Sub L s (unload L E s m) :=
+  ⟨unload_not_mem L E s m, unload_sub L E s m⟩
 
-/-- non-vacuity of `inv` / `frame`: the descriptor language satisfies the name hypotheses for a pool with prefix names -/
-example : GoodName ['a','p','p','.','a'] ∧ GoodName ['a','p','p','.','a','b'] := by
-  refine ⟨⟨by simp, by simp⟩, ⟨by simp, by simp⟩⟩
+/-- … the cascade is complete: nothing that is left depends on something that was removed -/
+theorem unload_cascade (s : St L) (m : ModPath) :
+    ∀ x, x ∈ (unload L E s m).mods → ∀ d, d ∈ depsOf L E (unload L E s m) x → d ∈ s.mods → d ∈ (unload L E s m).mods :=
+  fun x hx d hd hds => unload_dang L E s m x hx (by simp) d hd hds
 
-section
-variable {Src Tree NV V Text : Type} (L : Lang Src Tree NV V Text)
+/-- … and minimal: a set of modules that is closed under dependencies and does not contain `m` survives untouched -/
+theorem unload_minimal (O : ModPath → Prop) (s : St L) (m : ModPath) (hm : ¬ O m) (hO : ClosedSet L E s O) :
+    ClosedSet L E (unload L E s m) O ∧ FrameOn L O s (unload L E s m) :=
+  unload_keeps L E O s m hm hO
 
-/-- `unload m` removes everything keyed by `m`: the module, its entrypoint, its completed flag and every symbol whose
-    key is tagged `m` -/
-theorem unload_clears (s : St L) (m : ModPath) (hm : m ∈ s.mods) :
-    m ∉ (unload L s m).mods ∧ alookup (unload L s m).eps m = none ∧ m ∉ (unload L s m).completed ∧
-    tableOf (unload L s m).db m = [] ∧ hasModule (unload L s m).db m = false := by
-  simp only [unload, hm, if_true]
-  refine ⟨by simp, by simp [alookup_aerase], by simp, ?_, ?_⟩
-  · simp [tableOf, List.filter_filter]
-  · simp [hasModule]
-
-/-- … and nothing else: every other module keeps its registration, entrypoint, completed flag and table -/
-theorem unload_frame (s : St L) (m x : ModPath) (hx : x ≠ m) :
-    (x ∈ (unload L s m).mods ↔ x ∈ s.mods) ∧ alookup (unload L s m).eps x = alookup s.eps x ∧
-    (x ∈ (unload L s m).completed ↔ x ∈ s.completed) ∧ tableOf (unload L s m).db x = tableOf s.db x := by
-  unfold unload
-  split
-  · refine ⟨by simp [hx], by simp [alookup_aerase, hx], by simp [hx], ?_⟩
-    simp only [tableOf, List.filter_filter]
-    congr 1
-    funext kv
-    by_cases h : modOf kv.1 = x
-    · simp [h, hx]
-    · simp [h]
-  · exact ⟨Iff.rfl, rfl, Iff.rfl, rfl⟩
-
-/-- the same at the level of key strings: for module names without `#` the keys `full_joined(m, l)` all disappear and the
-    keys `full_joined(m', l)` of every other module — also one whose name has `m` as a string prefix, `app.a` / `app.ab` —
-    all stay -/
-theorem unload_exact (s : St L) (m m' : ModPath) (hm : m ∈ s.mods) (hgm : GoodName m) (hgm' : GoodName m') (hne : m' ≠ m)
-    (l : Str) (v : V) :
-    (fullJoined m l, v) ∉ (unload L s m).db ∧
-    ((fullJoined m' l, v) ∈ s.db → (fullJoined m' l, v) ∈ (unload L s m).db) := by
-  simp only [unload, hm, if_true, List.mem_filter, decide_eq_true_eq]
-  refine ⟨fun h => h.2 (modOf_fullJoined m l hgm), fun h => ⟨h, ?_⟩⟩
-  rw [modOf_fullJoined m' l hgm']
-  exact hne
-
-end
-
-/-- non-vacuity of `unload_exact` on the prefix pair: after unloading `app.a` the table of `app.ab` is untouched -/
-example :
-    let s : State Desc Desc Desc Str Str :=
-      { mainSrc := {}, mods := [['a','p','p','.','a'], ['a','p','p','.','a','b']],
-        db := [(fullJoined ['a','p','p','.','a'] ['A'], ['x']), (fullJoined ['a','p','p','.','a','b'] ['A'], ['y'])] }
-    (unload descLang s ['a','p','p','.','a']).db = [(fullJoined ['a','p','p','.','a','b'] ['A'], ['y'])] := by
-  decide +kernel
-
-section
-variable {Src Tree NV V Text : Type} (L : Lang Src Tree NV V Text) (E : Env Src)
+/-- the same at the level of key strings: for module names without `#` no key `full_joined(m, l)` is left, and every key
+    `full_joined(m', l)` of a module that is still registered — also one whose name has `m` as a string prefix,
+    `app.a` / `app.ab` — is still there -/
+theorem unload_exact (s : St L) (m m' : ModPath) (hC : Coherent L E s) (hgm : GoodName m) (hgm' : GoodName m')
+    (hm' : m' ∈ (unload L E s m).mods) (l : Str) (v : V) :
+    (fullJoined m l, v) ∉ (unload L E s m).db ∧
+    ((fullJoined m' l, v) ∈ s.db → (fullJoined m' l, v) ∈ (unload L E s m).db) := by
+  constructor
+  · intro h
+    have := (unload_inv L E s m hC.1).tags _ _ h
+    rw [modOf_fullJoined m l hgm] at this
+    exact unload_not_mem L E s m this
+  · intro h
+    have ht : (fullJoined m' l, v) ∈ tableOf s.db m' := mem_tableOf.2 ⟨h, modOf_fullJoined m' l hgm'⟩
+    rw [← (unload_sub L E s m).table m' hm'] at ht
+    exact (mem_tableOf.1 ht).1
 
 /-- Both transpiler stacks (`Py2Cpp.__stack_on_depends`, `Procedure.__stacks`): every `transpile` works on a fresh top frame;
     a successful one leaves both stacks as they were, a failing one leaves at most its own frame on top (no try/finally in
@@ -97,7 +76,7 @@ theorem stack_frames (hN : Names L E) (f : Nat) (s : St L) (m : ModPath) (hm : G
     ((transpile L E f s m).2.deps = s.deps ∧ (transpile L E f s m).2.proc = s.proc) ∨
     (∃ e d p, (transpile L E f s m).1 = .error e ∧ (transpile L E f s m).2.deps = d :: s.deps ∧ (transpile L E f s m).2.proc = p :: s.proc) := by
   unfold transpile
-  obtain ⟨_, hF1, _, _⟩ := loadAll_inv L E hN f [m] s (by intro p hp; simp at hp; exact hp ▸ hm) hC.1 hC.2.2
+  obtain ⟨_, hF1, _⟩ := loadAll_inv L E hN f [m] s (by intro p hp; simp at hp; exact hp ▸ hm) hC.1 hC.2.2.1
   generalize loadAll L E f [m] s = r at hF1
   obtain ⟨rr, s1⟩ := r
   cases rr with
@@ -117,48 +96,73 @@ theorem stack_frames (hN : Names L E) (f : Nat) (s : St L) (m : ModPath) (hm : G
 
 end
 
-/-! ### determinism: what holds on the current code -/
+/-! ### determinism: every history -/
 
 section
 variable {Src Tree NV V Text : Type} (L : Lang Src Tree NV V Text) (E : Env Src) (B : Base V) (rank : ModPath → Nat) (TreeOk : Tree → Prop)
 
-/-- `Stable` = `Coherent` + every registered module that has a reference table (it and its imports parse, no cycle, no
-    missing name: `Good`) holds exactly that table, its imports are registered, every symbol file equals the reference
-    table. Preserved by every *safe* operation (an `unload m` is safe when no registered module imports `m`), also by the
-    ones that raise. -/
-theorem inv_settled (hW : World L E B rank TreeOk) (f : Nat) (s : St L) (op : Op Src) (hop : SafeOp L E B rank TreeOk s op)
+/-- `Stable` = `Coherent` + every registered module holds exactly its reference table (so: what is registered is good) and
+    every symbol file is a reference table. Preserved by every operation with well-formed names that does not unload the
+    pinned base (the library modules and what they import) — whether it succeeds, raises, or raises and rolls back. -/
+theorem inv_stable (hW : World L E B rank TreeOk) (f : Nat) (s : St L) (op : Op Src) (hop : OpOk L E B rank TreeOk op)
     (hSt : Stable L E B rank TreeOk s) (hnr : (step L E f s op).1 ≠ .error .recursion) :
     Stable L E B rank TreeOk (step L E f s op).2 :=
   step_stable L E B rank TreeOk hW f s op hop hSt hnr
 
-/-- PROVED PART of determinism. In every state reachable from a stable state `s₀` (a fresh process, or a process with the
-    library modules loaded) by safe operations, `transpile m` of a good module returns
-    `render m tree(m) (reference tables)` — a function of the current sources alone. The history, the order of earlier
-    loads / transpiles / unloads / re-submissions, and which operations failed do not enter. -/
-theorem det_partial (hW : World L E B rank TreeOk) (hR : RenderLocal L B TreeOk) (f : Nat) (s₀ s : St L)
-    (h0 : Stable L E B rank TreeOk s₀) (hreach : SafeReach L E B rank TreeOk f s₀ s)
-    (m : ModPath) (hm : GoodName m) (n : Nat) (T : List (Key × V)) (hT : refTbl L B (srcOf L E s) n m = some T)
-    (hnr : (transpile L E f s m).1 ≠ .error .recursion) :
-    ∃ t, (srcOf L E s m).bind L.parse = some t ∧
-      (transpile L E f s m).1 = (L.render m (L.query t) (refLookAll L B (srcOf L E s) n)).1 :=
-  transpile_det L E B rank TreeOk hW hR f s m hm (reach_stable L E B rank TreeOk hW f s₀ s h0 hreach) n T hT hnr
+/-- In every reachable state `transpile m` returns the reference result of `m`, a function of the current sources alone:
+    `render m tree(m) (reference tables)` when `m` has a reference table, the reference error (the error of the first
+    failing import in load order, of the parser, or of ExpandModules) when it has none. -/
+theorem det_ref (hW : World L E B rank TreeOk) (hR : RenderLocal L B TreeOk) (f : Nat) (s₀ s : St L)
+    (h0 : Stable L E B rank TreeOk s₀) (hreach : Reach L E B rank TreeOk f s₀ s)
+    (m : ModPath) (hm : GoodName m) (hnr : (transpile L E f s m).1 ≠ .error .recursion) :
+    (∀ n T, refTbl L B (srcOf L E s) n m = some T → ∃ t, (srcOf L E s m).bind L.parse = some t ∧
+      (transpile L E f s m).1 = (L.render m (L.query t) (refLookAll L B (srcOf L E s) n)).1) ∧
+    (∀ n e, refErr L B (srcOf L E s) n m = some e → (transpile L E f s m).1 = .error e) := by
+  have hSt := reach_stable L E B rank TreeOk hW f s₀ s h0 hreach
+  exact ⟨fun n T hT => transpile_det L E B rank TreeOk hW hR f s m hm hSt n T hT hnr,
+    fun n e he => transpile_det_err L E B rank TreeOk hW f s m hm hSt n e he hnr⟩
+
+/-- DETERMINISM over all histories. Two processes over the same files whose in-memory module currently has the same
+    source answer `transpile m` identically — texts, render errors and load errors alike — whatever the two histories of
+    loads, transpiles, unloads and re-submissions were (in particular: one of them may be fresh), and which of their
+    operations failed.
+    Remaining hypotheses: `World` (module names are dotted paths; ExpandModules and the renderer read the symbol table
+    only inside the import closure; the import graph is acyclic; no file imports the in-memory module; the library
+    modules and what they import are the pinned `base`), the base is not unloaded (`OpOk`), no operation ran out of fuel. -/
+theorem det (hW : World L E B rank TreeOk) (hR : RenderLocal L B TreeOk) (f f' : Nat) (s₀ s s₀' s' : St L)
+    (h0 : Stable L E B rank TreeOk s₀) (hreach : Reach L E B rank TreeOk f s₀ s)
+    (h0' : Stable L E B rank TreeOk s₀') (hreach' : Reach L E B rank TreeOk f' s₀' s')
+    (hsrc : s'.mainSrc = s.mainSrc) (m : ModPath) (hm : GoodName m)
+    (hnr : (transpile L E f s m).1 ≠ .error .recursion) (hnr' : (transpile L E f' s' m).1 ≠ .error .recursion) :
+    (transpile L E f s m).1 = (transpile L E f' s' m).1 := by
+  have hSt := reach_stable L E B rank TreeOk hW f s₀ s h0 hreach
+  have hSt' := reach_stable L E B rank TreeOk hW f' s₀' s' h0' hreach'
+  have hs : srcOf L E s' = srcOf L E s := srcOf_congr L E s s' hsrc
+  obtain ⟨n, hn⟩ := determined L E B rank TreeOk hW s hSt.2.mainAcyclic m
+  rcases hn with ⟨T, hT⟩ | ⟨e, he⟩
+  · obtain ⟨t, ht, hr⟩ := transpile_det L E B rank TreeOk hW hR f s m hm hSt n T hT hnr
+    obtain ⟨t', ht', hr'⟩ := transpile_det L E B rank TreeOk hW hR f' s' m hm hSt' n T (by rw [hs]; exact hT) hnr'
+    rw [hs, ht] at ht'
+    cases ht'
+    rw [hr, hr', hs]
+  · rw [transpile_det_err L E B rank TreeOk hW f s m hm hSt n e he hnr,
+      transpile_det_err L E B rank TreeOk hW f' s' m hm hSt' n e (by rw [hs]; exact he) hnr']
 
 /-- `unload m; load m` gives `m` the state of a fresh load: registered, the tree of its source, exactly its reference
     table — the same as `load m` in any other stable state (e.g. a fresh process). -/
 theorem unload_load (hW : World L E B rank TreeOk) (f : Nat) (s : St L) (m : ModPath) (hm : GoodName m)
-    (hSt : Stable L E B rank TreeOk s) (hsafe : SafeOp L E B rank TreeOk s (.unload m))
+    (hSt : Stable L E B rank TreeOk s) (hmB : m ∉ B.mods)
     (n : Nat) (T : List (Key × V)) (hT : refTbl L B (srcOf L E s) n m = some T)
-    (hnr : (loadAll L E f [m] (unload L s m)).1 ≠ .error .recursion) :
-    (loadAll L E f [m] (unload L s m)).1 = .ok () ∧
-    m ∈ (loadAll L E f [m] (unload L s m)).2.mods ∧
-    tableOf (loadAll L E f [m] (unload L s m)).2.db m = T ∧
-    ∃ ep, alookup (loadAll L E f [m] (unload L s m)).2.eps m = some ep ∧ (srcOf L E s m).bind L.parse = some ep.tree := by
-  have hSt1 : Stable L E B rank TreeOk (unload L s m) := by
-    have := step_stable L E B rank TreeOk hW f s (.unload m) hsafe hSt (by simp [step])
+    (hnr : (loadAll L E f [m] (unload L E s m)).1 ≠ .error .recursion) :
+    (loadAll L E f [m] (unload L E s m)).1 = .ok () ∧
+    m ∈ (loadAll L E f [m] (unload L E s m)).2.mods ∧
+    tableOf (loadAll L E f [m] (unload L E s m)).2.db m = T ∧
+    ∃ ep, alookup (loadAll L E f [m] (unload L E s m)).2.eps m = some ep ∧ (srcOf L E s m).bind L.parse = some ep.tree := by
+  have hSt1 : Stable L E B rank TreeOk (unload L E s m) := by
+    have := step_stable L E B rank TreeOk hW f s (.unload m) hmB hSt (by simp [step])
     simpa [step] using this
-  have hsrc : srcOf L E (unload L s m) = srcOf L E s := by
-    apply srcOf_congr; unfold unload; split <;> rfl
-  have := load_table L E B rank TreeOk hW f (unload L s m) m hm hSt1 n T (by rw [hsrc]; exact hT) hnr
+  have hsrc : srcOf L E (unload L E s m) = srcOf L E s := srcOf_congr L E s _ (unload_sub L E s m).mainSrc
+  have := load_table L E B rank TreeOk hW f (unload L E s m) m hm hSt1 n T (by rw [hsrc]; exact hT) hnr
   rw [hsrc] at this
   exact this
 
@@ -189,7 +193,6 @@ theorem targets (hW : World L E B rank TreeOk) (hR : RenderLocal L B TreeOk) (f 
   have h2 := runner_det L E B rank TreeOk hW hR f N ts' s hSt hts' (hnr ts' hok')
   have c1 := runner_complete L E f ts s hok
   have c2 := runner_complete L E f ts' s hok'
-  -- both result lists are `target ↦ reference result`; membership is decided by the target alone
   have key : ∀ (l l' : List ModPath), (∀ m, m ∈ l → m ∈ l') →
       (∀ mr, mr ∈ (runner L E f s l).1 → ∃ t, (srcOf L E s mr.1).bind L.parse = some t ∧
         mr.2 = (L.render mr.1 (L.query t) (refLookAll L B (srcOf L E s) N)).1) →
@@ -216,14 +219,7 @@ theorem targets (hW : World L E B rank TreeOk) (hR : RenderLocal L B TreeOk) (f 
 
 end
 
-/-! ### determinism: the full statement, and why it is false on the current code -/
-
-/-- FULL STATEMENT of the property on the model: after any history of well-formed operations `transpile m` returns what
-    it returns in a fresh process. -/
-def det_statement : Prop :=
-  ∀ {Src Tree NV V Text : Type} (L : Lang Src Tree NV V Text) (E : Env Src) (f : Nat) (src : Src) (ops : List (Op Src)) (m : ModPath),
-    Names L E → SrcOk L src → (∀ op, op ∈ ops → Op.wf L op) → GoodName m →
-    (transpile L E f (run L E f { mainSrc := src } ops) m).1 = (transpile L E f { mainSrc := src } m).1
+/-! ### the hypotheses are satisfiable, and the three former counterexamples are regression cases -/
 
 namespace Witness
 def a : ModPath := ['a','p','p','.','a']
@@ -246,12 +242,11 @@ theorem namesUnload : Names descLang envUnload :=
   poolNames _ _ _ (by decide) (by decide) (by decide)
 end Witness
 
-/-! ### the hypotheses are satisfiable: the descriptor language over the witness pool -/
-
 namespace Witness
 def B0 : Base Str := ⟨[], fun _ => []⟩
 def rk : ModPath → Nat := List.length
 def pool : List (ModPath × Desc) := [(a, descA), (ab, descAbCall)]
+def poolRetry : List (ModPath × Desc) := [(a, descA), (ab, descAbBad)]
 
 theorem poolOk : PoolOk B0 rk pool main where
   tree := by decide
@@ -262,67 +257,81 @@ theorem poolOk : PoolOk B0 rk pool main where
   no_main := by decide
   base_closed := by decide
 
+theorem poolRetryOk : PoolOk B0 rk poolRetry main where
+  tree := by decide
+  rank := by decide
+  main_disk := by decide
+  main_name := by decide
+  main_base := by decide
+  no_main := by decide
+  base_closed := by decide
+
 theorem world : World descLang envUnload B0 rk (descTreeOk B0) := descWorld B0 rk pool main poolOk
+theorem worldRetry : World descLang envRetry B0 rk (descTreeOk B0) := descWorld B0 rk poolRetry main poolRetryOk
 
 theorem initStable : Stable descLang envUnload B0 rk (descTreeOk B0) init :=
   desc_init_stable rk pool main {} (by decide) (by decide)
 
 /-- `app.ab` (which calls into `app.a`) is good: it has a reference table at import depth 2 -/
 theorem abGood : (refTbl descLang B0 (srcOf descLang envUnload init) 2 ab).isSome = true := by decide +kernel
-end Witness
 
-open Witness in
-/-- non-vacuity of `det_partial` / `inv_settled` / `targets`: in the state after `transpile app.a; transpile app.ab;
-    unload app.ab; load app.ab` (all safe) the module `app.ab` transpiles to its reference text, which is a text (not an
-    error) and mentions the symbol of `app.a` it calls. -/
-example :
-    let s := run descLang envUnload 30 init [.transpile a, .transpile ab, .unload ab, .load ab]
-    (transpile descLang envUnload 30 s ab).1 = (transpile descLang envUnload 30 init ab).1 ∧
-    (transpile descLang envUnload 30 s ab).1.toOption.isSome = true := by
-  exact ⟨by decide +kernel, by decide +kernel⟩
+/-- with `from app.a import Nope` it has the reference error SymbolNotDefined -/
+theorem abBadErr : refErr descLang B0 (srcOf descLang envRetry init) 2 ab = some .symbolNotDefined := by decide +kernel
 
-open Witness in
-/-- Witness 1 (corpus/C04/failed-load-retry.json): the first `transpile app.ab` raises SymbolNotDefined and leaves `app.ab`
-    registered half-loaded; the second one returns a text, a fresh process raises. -/
-theorem det_counterexample_failed_load : ¬ det_statement := by
-  intro h
-  have := h descLang envRetry 20 {} [.transpile ab] ab namesRetry (descSrcOk _ (by decide))
-    (by intro op hop; simp at hop; subst hop; exact (by decide : GoodName ab)) (by decide)
-  exact absurd this (by decide +kernel)
-
-open Witness in
-/-- Witness 2 (corpus/C04/dep-unloaded.json): `transpile app.ab; unload app.a; transpile app.ab` — the dependant stays
-    registered, its import is gone, the renderer fails; a fresh process returns the text. -/
-theorem det_counterexample_dep_unloaded : ¬ det_statement := by
-  intro h
-  have := h descLang envUnload 20 {} [.transpile ab, .unload a] ab namesUnload (descSrcOk _ (by decide))
-    (by intro op hop; simp at hop; rcases hop with e | e <;> subst e; exact (by decide : GoodName ab); trivial) (by decide)
-  exact absurd this (by decide +kernel)
-
-namespace Witness
 def lib : ModPath := ['l','i','b']
 def typ : ModPath := ['t','y','p']
 /-- a library module that imports `typ` (like `classes.py` imports `typing`) -/
 def descLib : Desc := { imports := [(typ, [])], classes := [{ name := ['X'] }] }
 def descTyp : Desc := { classes := [{ name := ['T'] }] }
 def envLib : Env Desc := poolEnv [(lib, descLib), (typ, descTyp), (a, descA)] [lib] main
-theorem namesLib : Names descLang envLib := poolNames _ _ _ (by decide) (by decide) (by decide)
-end Witness
-
-open Witness in
-/-- Witness 3 (corpus/C04/lib-closure-first.json): a module that the library modules import (`typing`) is loaded by the
-    library load itself; `Modules.load` continues, pre-processes it a second time and raises Errors.Never — in a fresh
-    process. After any other module was transpiled the same request returns a text. -/
-theorem det_counterexample_lib_closure_first : ¬ det_statement := by
-  intro h
-  have := h descLang envLib 30 {} [.transpile a] typ namesLib (descSrcOk _ (by decide))
-    (by intro op hop; simp at hop; subst hop; exact (by decide : GoodName a)) (by decide)
-  exact absurd this (by decide +kernel)
-
-namespace Witness
 def e : ModPath := ['a','p','p','.','e']
 def envEmpty : Env Desc := poolEnv [(e, {})] [] main
 end Witness
+
+open Witness in
+/-- non-vacuity of `det` / `det_ref` / `inv_stable` / `targets`: in the state after `transpile app.a; transpile app.ab;
+    unload app.a` (which now also unloads the importer `app.ab`) `; load app.ab` the module `app.ab` transpiles to what a
+    fresh process gives, and that is a text -/
+example :
+    let s := run descLang envUnload 30 init [.transpile a, .transpile ab, .unload a, .load ab]
+    (transpile descLang envUnload 30 s ab).1 = (transpile descLang envUnload 30 init ab).1 ∧
+    (transpile descLang envUnload 30 s ab).1.toOption.isSome = true := by
+  exact ⟨by decide +kernel, by decide +kernel⟩
+
+open Witness in
+/-- Regression 1 (corpus/C04/failed-load-retry.json, repo fix 153b103): the failing first `transpile app.ab` is rolled back;
+    the second one raises the same SymbolNotDefined as a fresh process, nothing stays registered. -/
+example :
+    let s := run descLang envRetry 30 init [.transpile ab]
+    (transpile descLang envRetry 30 s ab).1 = (transpile descLang envRetry 30 init ab).1 ∧
+    (transpile descLang envRetry 30 s ab).1 = .error .symbolNotDefined ∧ ab ∉ s.mods := by
+  exact ⟨by decide +kernel, by decide +kernel, by decide +kernel⟩
+
+open Witness in
+/-- Regression 2 (corpus/C04/dep-unloaded.json, repo fix 023f8e8): `unload app.a` cascades to its importer `app.ab`;
+    the next `transpile app.ab` reloads both and equals the fresh result. -/
+example :
+    let s := run descLang envUnload 30 init [.transpile ab, .unload a]
+    (transpile descLang envUnload 30 s ab).1 = (transpile descLang envUnload 30 init ab).1 ∧ s.mods = [] := by
+  exact ⟨by decide +kernel, by decide +kernel⟩
+
+open Witness in
+/-- Regression 3 (corpus/C04/lib-closure-first.json, repo fix f3f812f): a module that the library modules import is loaded
+    by the library load itself; `Modules.load` re-checks the registry, so the fresh result is a text like in a session. -/
+example :
+    (transpile descLang envLib 30 (run descLang envLib 30 init [.transpile a]) typ).1 = (transpile descLang envLib 30 init typ).1 ∧
+    (transpile descLang envLib 30 init typ).1.toOption.isSome = true := by
+  exact ⟨by decide +kernel, by decide +kernel⟩
+
+open Witness in
+/-- non-vacuity of `unload_exact` on the prefix pair: unloading `app.a` leaves the table of `app.ab` (which does not
+    import it here) untouched -/
+example :
+    let s : State Desc Desc Desc Str Str :=
+      { mainSrc := {}, mods := [a, ab], eps := [(a, ⟨{}, []⟩), (ab, ⟨{}, []⟩)],
+        db := [(fullJoined a ['A'], ['x']), (fullJoined ab ['A'], ['y'])] }
+    (unload descLang envUnload s a).db = [(fullJoined ab ['A'], ['y'])] ∧ (unload descLang envUnload s a).mods = [ab] := by
+  decide +kernel
 
 open Witness in
 /-- `unload_load` deliberately says nothing about `SymbolDB.completed`: for a module without symbols the reload takes the
@@ -336,9 +345,8 @@ example :
 open Witness in
 /-- non-vacuity of `stack_frames`: a failing render leaves one frame on each stack, the next successful transpile leaves them alone -/
 example :
-    let s := run descLang envUnload 30 init [.transpile ab, .unload a, .transpile ab]
+    let s := run descLang envUnload 30 init [.transpile ab, .resubmit { classes := [{ name := ['M'], methods := [{ name := ['g'], badName := true }] }] }]
     s.deps.length = 1 ∧ s.proc.length = 1 ∧ (run descLang envUnload 30 s [.transpile a]).deps.length = 1 := by
   decide +kernel
-
 
 end Tranp.C04
